@@ -2,7 +2,8 @@
 
    C09: private attributes are never serialised unless asked for, nor sent in the clear. *)
 From Coq Require Import List NArith ZArith Bool.
-From Cedar Require Import Lib.Bytes Model.Msg Model.Privacy Model.AdWire Proofs.C09 Proofs.C14Writer Proofs.C09Layout.
+From Cedar Require Import Lib.Bytes gen.Consts Model.Msg Model.Privacy Model.AdWire Proofs.C09 Proofs.C14Writer Proofs.C09Layout.
+From Cedar Require Import Proofs.C14Roundtrip Proofs.C08Bridge Proofs.C09Round.
 Import ListNotations.
 Local Open Scope N_scope.
 
@@ -89,6 +90,27 @@ Theorem C09_marker_layout : forall (c : config) (a : ad),
 Proof. exact marker_layout. Qed.
 Print Assumptions C09_marker_layout.
 
+(* "... and the receiver still reassembles the ad": on a stream that holds a key but is not
+   encrypting, for EVERY ad, option set (types not suppressed), whitelist and peer version,
+   GetClassAdRaw applied to the frames the sender produced - clear frames carrying the public
+   attributes and the markers, sealed frames carrying the secrets, the crypto mode switched at
+   exactly the frame boundaries the sender flushed at - returns every serialised attribute's
+   "name = value" text (ServerTime first if requested), in order and unchanged, private ones
+   included, and the two type names.  Hypotheses: the rendered strings are NUL-free, do not start
+   with 0xAD and are shorter than 2^31 (true of rendered ClassAd expressions); a secret attribute's
+   string is shorter than MaxFrameSize - 9 (1 MiB); type names are type names or empty. *)
+Theorem C09_receiver_reassembles : forall (c : config) (a : ad),
+  opt_no_types (c_opts c) = false ->
+  secrets_small c (attrs_to_send c (ad_attrs a)) ->
+  Forall (valid_str true) (ad_exprs c a) ->
+  nul_free (ad_mytype a) -> nul_free (ad_targettype a) -> type_ok (ad_mytype a) -> type_ok (ad_targettype a) ->
+  (Z.of_nat (length (ad_attrs a)) < 2 ^ 62)%Z ->
+  exists t1,
+    get_ad_raw (treader_of true false (s_frames (s_finish (put_ad c (sstate_init true false) a)))) =
+      (t1, MOk (ad_exprs c a, ad_mytype a, ad_targettype a)).
+Proof. exact marker_roundtrip. Qed.
+Print Assumptions C09_receiver_reassembles.
+
 (* With the opt-in (and no whitelist, current or unknown peer) every attribute is sent: the filter is not vacuous. *)
 Theorem C09_opt_in_sends_all : forall (c : config) (attrs : list attr) (a : attr),
   include_private c = true -> c_whitelist c = [] ->
@@ -115,3 +137,4 @@ Proof.
     constructor; [split; [reflexivity|vm_compute; reflexivity]|]. constructor.
   - split; [vm_compute; reflexivity|]. vm_compute. discriminate.
 Qed.
+
